@@ -294,7 +294,9 @@ class Expr(metaclass=UFLType):
     def __float__(self):
         """Try to evaluate as scalar and cast to float."""
         try:
-            v = float(self._ufl_evaluate_scalar_())
+            v = self._ufl_evaluate_scalar_()
+            # A terminal without a value evaluates to itself
+            v = NotImplemented if isinstance(v, Expr) else float(v)
         except Exception:
             v = NotImplemented
         return v
@@ -302,7 +304,9 @@ class Expr(metaclass=UFLType):
     def __complex__(self):
         """Try to evaluate as scalar and cast to complex."""
         try:
-            v = complex(self._ufl_evaluate_scalar_())
+            v = self._ufl_evaluate_scalar_()
+            # A terminal without a value evaluates to itself
+            v = NotImplemented if isinstance(v, Expr) else complex(v)
         except TypeError:
             v = NotImplemented
         return v
